@@ -1,7 +1,7 @@
 import EbisimModel
 /-! Line-protocol driver: one request per line on stdin, one answer line on stdout.
 Every floating-point number travels as the decimal rendering of its IEEE-754 bit pattern. -/
-open Radial
+open Radial Xs Elements
 
 def fb (s : String) : Float := Float.ofBits (UInt64.ofNat s.toNat!)
 def tokz (s : String) : Array String := Id.run do
@@ -36,6 +36,16 @@ def species (nl kT q : List Float) : List (Species Float) :=
 
 def bpAnswer (o : BPOut Float) : String :=
   toString o.iters ++ " " ++ pr (o.phi ++ o.nax ++ o.shape.foldr (· ++ ·) [])
+
+/-- identifier: `num <int>` or `str <len> <code points…>` -/
+def parseIdent (t : Array String) (pos : Nat) : Option Ident × Nat :=
+  match t[pos]! with
+  | "num" => (some (.num t[pos+1]!.toInt!), pos + 2)
+  | "str" =>
+    let n := t[pos+1]!.toNat!
+    (some (.str ((List.range n).map fun i => t[pos + 2 + i]!.toNat!)), pos + 2 + n)
+  | _ => (none, pos)
+def codesToStr (c : List Nat) : String := String.ofList (c.map Char.ofNat)
 
 def handle (t : Array String) : String :=
   match t[0]! with
@@ -98,6 +108,77 @@ def handle (t : Array String) : String :=
     let (l, p) := flist t p; let (d, p) := flist t p; let (u, _) := flist t p
     let o := step { variant := v, r, ldu := triples l d u, b0, cden, e_kin, sp := species nl kT q } phi
     pr (o.phi ++ o.nax ++ o.shape.foldr (· ++ ·) [] ++ o.y ++ o.b ++ o.jd)
+  | "eixs" => pr (eixsVec t[1]!.toNat! (fb t[2]!))
+  | "rrxs" => pr (rrxsVec t[1]!.toNat! (fb t[2]!))
+  | "drxs" => pr (drxsVec t[1]!.toNat! (fb t[2]!) (fb t[3]!))
+  | "rrpre" =>
+    let r := rrPre (α := Float) t[1]!.toNat!
+    pr (r.map (·.1) ++ r.map (·.2))
+  | "lotz" =>
+    -- lotz Z ncs ncol : per (cs, shell) a status code and the triple
+    let z := t[1]!.toNat!
+    let rows := (List.range t[2]!.toNat!).flatMap fun cs => (List.range t[3]!.toNat!).map fun i =>
+      let r := lotzEntry z cs i
+      let code := match r with | .tab _ => "t" | .zero => "z" | .dflt => "d" | .outside => "o" | .keyError => "k"
+      match coefOf (α := Float) r with
+      | some (a, b, c) => code ++ " " ++ pb a ++ " " ++ pb b ++ " " ++ pb c
+      | none => code ++ " 0 0 0"
+    " ".intercalate rows
+  | "cfg" => " ".intercalate ((Gen.cfg t[1]!.toNat!).map fun r => " ".intercalate (r.map toString))
+  | "ebind" => pr ((Gen.ebind t[1]!.toNat!).flatten.map fun x => (Num.ofScaled x Gen.scEbind : Float))
+  | "drtab" =>
+    let rows := Gen.dr t[1]!.toNat!
+    " ".intercalate (rows.map fun (cs, er, st) => toString cs ++ " " ++ pb (Num.ofScaled er Gen.scEres : Float) ++ " " ++ pb (Num.ofScaled st Gen.scStr : Float))
+  | "mat" =>
+    let (xs, _) := flist t 2
+    match t[1]! with
+    | "ei" => pr (eiMat xs).flatten
+    | "rec" => pr (recMat xs).flatten
+    | _ => "bad-op"
+  | "esamp" => pr (eSampDefault (α := Float) t[1]!.toNat! t[2]!.toNat!)
+  | "elimits" => pr [eMinRule (α := Float) t[1]!.toNat!, eMaxRule (α := Float) t[1]!.toNat!]
+  | "logspace" => pr (logspace (fb t[1]!) (fb t[2]!) t[3]!.toNat!)
+  | "ident" =>
+    match parseIdent t 1 with
+    | (some id, _) =>
+      (match identify id with
+        | some (z, nm, sym) => "ok " ++ toString z ++ " " ++ codesToStr nm ++ " " ++ codesToStr sym
+        | none => "ValueError")
+    | (none, _) => "bad-op"
+  | "ez" =>
+    match parseIdent t 1 with
+    | (some (.str s), _) => (match elementZ s with | some z => "ok " ++ toString z | none => "ValueError")
+    | _ => "bad-op"
+  | "esym" =>
+    match parseIdent t 1 with
+    | (some id, _) => (match elementSymbol id with | some c => "ok " ++ codesToStr c | none => "ValueError")
+    | _ => "bad-op"
+  | "ename" =>
+    match parseIdent t 1 with
+    | (some id, _) => (match elementName id with | some c => "ok " ++ codesToStr c | none => "ValueError")
+    | _ => "bad-op"
+  | "ehead" =>
+    match parseIdent t 1 with
+    | (some id, p) =>
+      let a : Option Float := if t[p]! == "1" then some (fb t[p+1]!) else none
+      (match elementHead id a with
+        | some (z, a', ip) => "ok " ++ toString z ++ " " ++ pb a' ++ " " ++ pb ip
+        | none => "ValueError")
+    | (none, _) => "bad-op"
+  | "gas" =>
+    match parseIdent t 1 with
+    | (some id, p) =>
+      (match getGas id (fb t[p]!) (fb t[p+1]!) (fb t[p+2]!) with
+        | some (n, kT) => "ok " ++ pr (n ++ kT)
+        | none => "ValueError")
+    | (none, _) => "bad-op"
+  | "ions" =>
+    match parseIdent t 1 with
+    | (some id, p) =>
+      (match getIons id (fb t[p]!) (fb t[p+1]!) t[p+2]!.toNat! with
+        | some (n, kT) => "ok " ++ pr (n ++ kT)
+        | none => "ValueError")
+    | (none, _) => "bad-op"
   | "chunks" =>
     " ".intercalate ((Chunks.indices t[1]!.toNat! t[2]!.toNat!).map fun ab => toString ab.1 ++ " " ++ toString ab.2)
   | _ => "bad-op"
